@@ -34,8 +34,9 @@ def queries(table, rng, limit=None):
         regs = rng.sample(regs, limit)
     qs = []
     for k, r in enumerate(regs):
+        F_k = gen.feat(101, k)          # independent feature choices per case (gen.feat)
         r2 = regs[(k * 7 + 3) % len(regs)]
-        qs.append({"r": r, "r2": r2, "single": k % 5 == 0})
+        qs.append({"r": r, "r2": r2, "single": F_k("m5@37", 5) == 0})
     return qs
 
 
@@ -58,8 +59,9 @@ def cases(tier, seed):
         tables += list(gen.REPRESENTATIVE_TABLES.values())
     nth = 0
     for k, table in enumerate(tables):
+        F_k = gen.feat(102, k)          # independent feature choices per case (gen.feat)
         n = len(table)
-        mode = "symm" if k % 4 else "square"
+        mode = "symm" if F_k("m4@61", 4) else "square"
         qs = queries(table, rng, limit=60 if tier == "quick" else 120)
         for part in range(0, len(qs), 30):
             nth += 1
